@@ -13,7 +13,7 @@ from gridrv.oracles import c18ref
 PROP = "C18"
 TITLE = "Multi-domain integration equals the iterated product quadrature"
 REQUIRED_HOOKS = ["MultiDomainGrid.__init__", "MultiDomainGrid.integrate", "MultiDomainGrid.size", "MultiDomainGrid.points", "MultiDomainGrid.weights", "MultiDomainGrid.num_domains"] + [f"clone:{k}" for k in roundtrip.KINDS]
-REQUIRED_FAMILIES = ["product", "repeated", "default-chunk", "hostile", "history", "huge-size", "forms"]
+REQUIRED_FAMILIES = ["product", "repeated", "default-chunk", "hostile", "history", "huge-size", "forms", "shared-return"]
 BUDGET = {"quick": 300, "thorough": 2400}
 TOL = 1e-12
 TOLW = 1e-14
@@ -39,6 +39,10 @@ RULE = (
     "component arrays (the reference copies them at every call). huge-size = product sets of 2**40 .. 2**200 tuples in repeated and "
     "list mode: size must be the exact integer product (never enumerated). forms = component grids with integer / float32 points "
     "and weights, integrands returning integer / float32 / complex / Python-float values, num_domains as NumPy integers. "
+    "shared-return = integrands whose RETURN VALUE is shared state (same preallocated buffer each call, cached array per shape, strided "
+    "view into a larger buffer, read-only view of a shared buffer, the input array object itself; point-by-point: scalar read from a "
+    "shared buffer, cached Python float), 1-4 domains, list and repeated mode, > 64 and > 1024 leading-argument combinations: integral "
+    "== same integrand with fresh return values == nested sum, component arrays unchanged. "
     "clones: in product/repeated/history cases the MultiDomainGrid (and, every other case, its component grids before construction) "
     "goes through copy.copy / copy.deepcopy / pickle (protocols default and 2): public state of clone == original, original unchanged, "
     "and the clone is decided by the same post-conditions against the ORIGINAL's component grids. "
@@ -52,6 +56,10 @@ ASSUMPTIONS = [
 LEVEL_TEXT = "Every integrate call of the workload is decided against an explicit long-double nested sum over the enumerated product set; all routes (vectorised / point-by-point x 8-9 chunk sizes) per case; 1-4 domains of mixed point dimension; repeated-grid mode 1-4."
 TECHNIQUE = "runtime monitoring: post-conditions on MultiDomainGrid.integrate/size/points/weights/num_domains with a brute-force product-set reference and an invocation-counting integrand wrapper"
 
+# what the integrand's RETURN VALUE is: the same preallocated buffer on every call, a cached array per input shape, a view
+# into a larger buffer, a read-only view of a shared buffer, the input array object itself (identity in the last argument), and
+# for point-by-point mode a scalar read out of a shared buffer / a cached Python float
+SHARED_RETURNS = ["same-buffer", "cache-per-shape", "view-of-larger-buffer", "read-only-shared", "input-itself", "pbp-scalar-from-shared-buffer", "pbp-cached-python-float"]
 _state = {"ctx": None}
 _reg = {}  # id(MultiDomainGrid) -> (grid_list copy, num_domains)
 _memo = []  # [(mg, raw, doms, S, A)] most recent first
@@ -78,6 +86,11 @@ def cases(tier, seed):
     for form in ("int-grids", "float32-grids", "float32-points-only", "int-integrand", "float32-integrand", "complex-integrand", "numpy-num-domains"):
         for k in range(3 if q else 40):
             out.append(("forms", {"form": form, "k": k}, 2.0))
+    for k in range(1 if q else 6):
+        for how in SHARED_RETURNS:
+            for D in (1, 2, 3, 4):
+                for rep_mode in (False, True):
+                    out.append(("shared-return", {"how": how, "D": D, "repeat": rep_mode, "k": k}, 8.0 if D > 1 else 2.0))
     for what in ("single-point-domains", "zero-weights", "signed-weights", "same-grid-listed", "numpy-int-num-domains", "num-domains-one", "python-float-integrand", "huge-chunk"):
         for k in range(2 if q else 20):
             out.append(("hostile", {"what": what, "k": k}, 2.0))
@@ -628,6 +641,8 @@ def run_case(ctx, family, params):
         _huge_size(ctx, params)
     elif family == "forms":
         _forms(ctx, params)
+    elif family == "shared-return":
+        _shared_return(ctx, params)
     else:
         raise ValueError(family)
 
@@ -660,6 +675,119 @@ def _clones(ctx, mg, glist, nd, dims, integrand):
                 _register(mg2, glist, nd, label=",components-cloned:" + kind)  # reference = the ORIGINAL component grids
                 _exercise(ctx, mg2, grids_ref, dims, [integrand], chunks=chunks)
         ctx.count("clones-exercised:" + kind)
+
+
+class SharedReturn:
+    """Integrand whose return value is shared state; ``raw`` (what the reference evaluates) returns fresh values."""
+
+    def __init__(self, raw, how):
+        self.raw, self.how = raw, how
+        self.bufs, self.big, self.calls, self.cache = {}, np.zeros(0), 0, {}
+
+    def __call__(self, *args):
+        self.calls += 1
+        if self.how == "input-itself":
+            return args[-1]  # the very array object handed in by the library (the grid's points)
+        v = self.raw(*args)
+        if np.ndim(v) == 0:  # point-by-point call
+            if self.how == "pbp-cached-python-float":
+                return self.cache.setdefault(float(v), float(v))
+            buf = self.bufs.setdefault((), np.zeros(1))
+            buf[0] = v
+            return buf[0] if self.how.startswith("pbp") else float(v)
+        v = np.asarray(v, dtype=float)
+        if self.how == "view-of-larger-buffer":
+            if self.big.size < 2 * v.size + 7:
+                self.big = np.zeros(2 * v.size + 7)
+            out = self.big[3 : 3 + 2 * v.size : 2]  # strided view that does not own its data
+            out[...] = v
+            return out
+        buf = self.bufs.get(v.shape)
+        if buf is None:
+            buf = self.bufs[v.shape] = np.zeros(v.shape)
+        np.copyto(buf, v)
+        if self.how == "read-only-shared":
+            ro = buf.view()
+            ro.flags.writeable = False
+            return ro
+        return buf
+
+
+def _shared_return(ctx, params):
+    """Integrand callbacks whose return value is shared state, with enough leading-argument combinations (> 64 and > 1024) for
+    any blocking: the integral must equal the one obtained with fresh return values and the nested sum."""
+    from grid.ngrid import MultiDomainGrid
+
+    rng = ctx.rng
+    how, D, repeated, k = params["how"], params["D"], params["repeat"], params["k"]
+    big = bool((k + D) % 2)  # > 1024 leading combinations, else > 64
+    flat_last = how == "input-itself"
+    if repeated:
+        n1 = {1: int(rng.integers(65, 2000)), 2: int(rng.integers(66, 120)), 3: int(rng.integers(33, 35)) if big else int(rng.integers(9, 14)), 4: 11 if big else int(rng.integers(5, 7))}[D]
+        g, d = _domain(rng, "flat1d" if flat_last else str(rng.choice(["flat1d", "col1d", "2d", "3d", "int-grid"])), n1)
+        glist, nd, grids, dims = [g], D, [g] * D, [d] * D
+        mg = MultiDomainGrid([g], num_domains=D)
+    else:
+        if D == 1:
+            lead = []
+        else:
+            target = int(rng.integers(1030, 1400)) if big else int(rng.integers(66, 200))
+            lead = [target] if D == 2 else ([int(np.ceil(target ** 0.5))] * 2 if D == 3 else [int(np.ceil(target ** (1 / 3)))] * 3)
+            lead[0] += int(rng.integers(0, 3))
+        sizes = lead + [int(rng.integers(65, 3000)) if D == 1 else int(rng.integers(2, 9))]
+        grids, dims = [], []
+        for i, sz in enumerate(sizes):
+            last = i == len(sizes) - 1
+            g, d = _domain(rng, "flat1d" if (last and flat_last) else str(rng.choice(["flat1d", "col1d", "2d", "3d", "int-grid"])), sz)
+            grids.append(g)
+            dims.append(d)
+        glist, nd = grids, None
+        mg = MultiDomainGrid(grids)
+    mode = _mode(mg)
+    tag = f"{how},D={D},{mode}"
+    if how == "input-itself":
+        raw = _LastArgument()
+    else:
+        raw = Integrand(rng, dims, str(rng.choice(["coupled", "separable", "oscillating"])))
+    ref = _reference(mg, raw)
+    if ref is None:
+        raise RuntimeError("reference not available for a workload case")
+    doms, S, A = ref
+    n = int(np.prod([len(dm[1]) for dm in doms]))
+    before = c18ref.digest(doms)
+    F = SharedReturn(raw, how)
+    pbp = how.startswith("pbp")
+    results = {}
+    with ctx.guard("integral-equals-nested-sum", f"integrate[shared-return:{tag}]"):
+        if pbp:
+            for ch in (7, n + 1, 6000):
+                results[f"shared,chunk={ch}"] = mg.integrate(F, non_vectorized=True, integration_chunk_size=ch)
+            results["fresh"] = mg.integrate(Counted(raw, D), non_vectorized=True)
+        else:
+            results["shared"] = mg.integrate(F)
+            want_calls = int(np.prod([len(dm[1]) for dm in doms[:-1]])) if D > 1 else 1
+            ctx.check("integrand-invocations", f"integrate[vectorised,shared-return:{tag}]", F.calls == want_calls, sig=f"calls/expected={F.calls / want_calls:.3g}")
+            results["shared-again"] = mg.integrate(F)  # the buffers now hold the values of the previous run
+            results["fresh"] = mg.integrate(Counted(raw, D))
+            if how != "input-itself" and n <= 12000:
+                results["shared,point-by-point"] = mg.integrate(F, non_vectorized=True)
+            ctx.case_note("leading_combinations", want_calls)
+    if A > 0 and "fresh" in results:
+        worst, wk = 0.0, None
+        for key, v in results.items():
+            dv = abs(float(v) - float(results["fresh"])) / float(A)
+            if dv > worst or dv != dv:
+                worst, wk = dv, key
+        ctx.check("shared-return-equals-fresh-return", f"integrate[{tag}]", worst, 2 * TOL, sig=f"differs:{(wk or '').split(',')[0]}", detail={k2: float(v) for k2, v in results.items()})
+    ctx.check("arguments-unchanged", f"integrate[{tag}]", c18ref.digest(c18ref.domain_arrays(grids)) == before, sig="component points/weights modified")
+    ctx.count("shared-return:" + how)
+
+
+class _LastArgument:
+    """f(x_1..x_D) = x_D for a flat 1-D last domain (vectorised: the array of the last domain's points itself)."""
+
+    def __call__(self, *args):
+        return args[-1]
 
 
 def _mutate(ctx, rng, g):
